@@ -173,6 +173,8 @@ ORDER_ENUMS = [(f"Perm{i}", ("char", [(f"M{v}", v) for v in perm])) for i, perm 
 ORDER_ENUMS += [
     ("Unordered", ("short", [("Invalid", 250), ("Low", 1), ("Next", 2), ("Other", 3), ("Top", 251)])),
     ("WideUnordered", ("three", [("Small", 5), ("Big", 64007), ("Mid", 300), ("MidNext", 301)])),
+    # a signed ordinal is an integer the declaration syntax admits (it cannot travel on the wire, but the class must keep it)
+    ("Signed", ("short", [("Back", -2), ("Zero", 0), ("Fwd", 1), ("Far", 40)])),
 ]
 GEN_ENUMS["pub"] = GEN_ENUMS["pub"] + ORDER_ENUMS
 ORDER_NAMES = {n for n, _ in ORDER_ENUMS}
